@@ -144,6 +144,41 @@ pub fn run(a: &Args) {
             }
         }
     }
+    // 3b. the same tables as the parser applies them to the wire: one question / one record whose QTYPE, QCLASS
+    //     (15 bits under the unicast-response bit) or CLASS (15 bits under the cache-flush bit) field takes every
+    //     16-bit value; a supported code is shown as itself with the top bit reported separately, an unsupported
+    //     one rejects the message -- never aliased to another code.  r[i] = -1 (rejected) | code * 2 + top bit
+    for field in ["qtype", "qclass", "class"] {
+        for c0 in (0u32..65536).step_by(256) {
+            let mut r: Vec<i64> = vec![];
+            for v in c0..c0 + 256 {
+                let v = v as u16;
+                let mut m = vec![0, 1, 0x80, 0, 0, 0, 0, 0, 0, 0, 0, 0];
+                if field == "class" {
+                    m[7] = 1;
+                    m.extend(b"\x01x\x00\x00\x01");
+                    m.extend(v.to_be_bytes());
+                    m.extend([0, 0, 0, 1, 0, 4, 10, 0, 0, 1]);
+                } else {
+                    m[5] = 1;
+                    m.extend(b"\x01x\x00");
+                    m.extend(if field == "qtype" { v.to_be_bytes() } else { [0, 1] });
+                    m.extend(if field == "qclass" { v.to_be_bytes() } else { [0, 1] });
+                }
+                let got = guarded(|| match Packet::parse(&m) {
+                    Ok(p) => match field {
+                        "qtype" => u16::from(p.questions[0].qtype) as i64 * 2,
+                        "qclass" => u16::from(p.questions[0].qclass) as i64 * 2 + p.questions[0].unicast_response as i64,
+                        _ => (p.answers[0].class as u16) as i64 * 2 + p.answers[0].cache_flush as i64,
+                    },
+                    Err(_) => -1,
+                });
+                r.push(got.unwrap_or(-2));
+                st.case(("wire", field, v), true);
+            }
+            out.emit(json!({"ev": "WireCodes", "cls": format!("wire-codes {field}"), "field": field, "c0": c0, "r": r}));
+        }
+    }
     // 4. class x qclass
     for c in [1u16, 2, 3, 4, 254] {
         // (the mDNS cache-flush bit shares the class field on the wire but is not part of the class)
